@@ -19,6 +19,7 @@ func init() {
 
 func checkC06(c *Ctx, r *Report) {
 	runEDrop(c, r, nil, 60)
+	checkBothCopies(c, r) // both version reads are checked against the dimension: ReadCodewords sizes its result by the version (also C05)
 	nf := c.newNilFlow()
 	var roots []*ssa.Function
 	roots = append(roots, nf.entryMethods("", "Reader", "Decode")...)
